@@ -214,3 +214,14 @@ func simplifyCmd(c core.Cmd) []core.Cmd {
 	}
 	return out
 }
+
+// TestSimTrace prints the operation kinds the simulated os records for the
+// fixed call sequence of seq.TestRealUploadHelper (C13 stub fidelity).
+func TestSimTrace(t *testing.T) {
+	if os.Getenv("VERIF_SIM_TRACE") == "" {
+		t.Skip("no VERIF_SIM_TRACE")
+	}
+	for _, k := range SimTraceForFixedSequence() {
+		fmt.Println("SIMOP", k)
+	}
+}
